@@ -14,3 +14,4 @@ Definition src_remove_lanelet : remove_prog := {| rp_dict := ULanelets; rp_clean
 Definition src_remove_sign : remove_prog := {| rp_dict := USigns; rp_cleanup := CleanupInside |}.
 Definition src_remove_light : remove_prog := {| rp_dict := ULights; rp_cleanup := CleanupAfter |}.
 Definition src_remove_inter : remove_prog := {| rp_dict := UInters; rp_cleanup := CleanupNone |}.
+Definition src_from_list : fromlist_prog := {| fl_deepcopy := true; fl_cleanups := [CkLanelets; CkLights; CkSigns] |}.
